@@ -155,6 +155,14 @@ class Fn:
                 self.names.setdefault(pl.local, d["name"])
         self.arg_names = j.get("arg_names", [])
         self._cfg = None
+        self.promoted = []
+        for i, pm in enumerate(j.get("promoted", [])):
+            pj = dict(j)
+            pj["mir"] = pm
+            pj["promoted"] = []
+            pj["path"] = j["path"] + "::{promoted#%d}" % i
+            pj["kind"] = "Promoted"
+            self.promoted.append(Fn(crate, pj))
 
     # -- basic CFG ---------------------------------------------------------
     def term(self, bb):
@@ -389,7 +397,7 @@ def render(t, depth=0):
     if k == "field":
         return "%s.%s" % (r(t.sub[0]), t.a)
     if k == "deref":
-        return "*%s" % r(t.sub[0])
+        return r(t.sub[0])
     if k == "ref":
         return r(t.sub[0])
     if k == "cast":
@@ -557,6 +565,9 @@ class Prov:
                 return T("fn", strip_generics(op["fn"]), meta=op)
             if "int" in op:
                 return T("const", int(op["int"]), meta=op)
+            if "promoted" in op and op["promoted"] < len(self.fn.promoted) and depth < self.max_depth:
+                pf = self.fn.promoted[op["promoted"]]
+                return Prov(pf).of_local(0, depth + 1)
             if "str" in op:
                 return T("str", op["str"], meta=op)
             return T("const", "<%s>" % norm_ty(op["ty"]), meta=op)
